@@ -130,10 +130,37 @@ class Model:
         return Model._contract(arrays, True)
 
     @staticmethod
+    def whole(arrays, p):
+        """acts on every axis of the operand and keeps the layout (pad, …)"""
+        L = labels_of(arrays[0])
+        return arr(L), set(L)
+
+    @staticmethod
+    def outer(arrays, p):
+        La, Lb = labels_of(arrays[0]), labels_of(arrays[1])
+        return arr((f"flat({','.join(La)})", f"flat({','.join(Lb)})")), set(La) | set(Lb)
+
+    @staticmethod
+    def diag(arrays, p):
+        L = labels_of(arrays[0])
+        if len(L) == 1:
+            return arr((f"diag0({L[0]})", f"diag1({L[0]})")), set(L)
+        if len(L) == 2:
+            return arr((f"diag({L[0]},{L[1]})",)), set(L)
+        raise EvalRaise("ValueError")
+
+    @staticmethod
+    def second(arrays, p):
+        """element-wise in the SECOND operand (searchsorted: every query is located in an unbatched table)"""
+        return arr(labels_of(arrays[1])), set()
+
+    @staticmethod
     def trailing(arrays, p):
         """acts on the last k axes of the operand (k: fixed, or every axis of one example); the layout is kept"""
         L = labels_of(arrays[0])
         k = p.get("_k") or len([l for l in L if l != "B"])
+        if k > len(L):
+            raise EvalRaise("ValueError")
         return arr(L), set(L[len(L) - k:]) if k else set()
 
     @staticmethod
@@ -254,7 +281,7 @@ class Model:
         return arr(L[:pos] + ("N",) + L[pos:]), set()
 
 
-KINDS: Dict[str, Callable[..., Any]] = {k: getattr(Model, k) for k in ("elementwise", "broadcast", "matmul", "dot", "trailing", "along", "preserve", "reduce", "size", "insert", "stack", "concat", "squeeze", "transpose", "split", "unstack", "take", "diagonal", "linspace")}
+KINDS: Dict[str, Callable[..., Any]] = {k: getattr(Model, k) for k in ("elementwise", "broadcast", "matmul", "dot", "whole", "outer", "diag", "second", "trailing", "along", "preserve", "reduce", "size", "insert", "stack", "concat", "squeeze", "transpose", "split", "unstack", "take", "diagonal", "linspace")}
 
 
 class Spec:
